@@ -52,18 +52,15 @@ Lemma render_raw_cons2 i l x r fin :
 Proof. reflexivity. Qed.
 
 (* one iteration of the loop on a terminated line *)
-Lemma raw_loop_item_lf f i l rest file a p :
+Lemma raw_block_item_lf i l rest :
   wf_ritem (i, l) = true ->
-  raw_loop (S f) cfg0 {| r_file := file; r_rest := wrap_line l (ritem_text i) ++ LF :: ritem_body i ++ rest;
-                         r_ammo := a; r_pass := p |} =
+  raw_block (wrap_line l (ritem_text i) ++ LF :: ritem_body i ++ rest) =
     match i with
-    | RBlank => raw_loop f cfg0 {| r_file := file; r_rest := rest; r_ammo := a; r_pass := p |}
-    | RReq t b => (SDeliver {| rb_buf := b; rb_tag := t |},
-                   {| r_file := file; r_rest := rest; r_ammo := N.succ a; r_pass := p |},
-                   Some (nlen b, nlen (b ++ rest)))
+    | RBlank => RSkip rest
+    | RReq t b => RFound {| rb_buf := b; rb_tag := t |} rest (Some (nlen b, nlen (b ++ rest)))
     end.
 Proof.
-  intros H. cbn [raw_loop r_rest].
+  intros H. unfold raw_block.
   rewrite read_string_line by (apply nolf_wrap_line; [eapply wf_r_lay; eauto|eapply rnolf_text; eauto]).
   cbn [negb]. cbv iota.
   rewrite trim_wrap_line_lf by (eauto using wf_r_lay, rtext_tight_or_nil).
@@ -75,83 +72,53 @@ Proof.
   destruct (ritem_text (RReq t b)) as [|c cs] eqn:Et.
   { cbn [ritem_text] in Et. apply app_eq_nil in Et. destruct Et as [Et _]. contradiction. }
   rewrite <- Et. rewrite raw_decode_header_text by exact Hb.
-  cbn [r_file r_ammo r_pass ritem_body].
+  cbn [ritem_body].
   assert (Hnz : (Z.of_N (nlen b) =? 0)%Z = false).
   { apply Z.eqb_neq. destruct b; [discriminate|]. cbn [nlen]. lia. }
   rewrite Hnz. rewrite alloc_read_exact by exact Hb. reflexivity.
 Qed.
 
-Lemma raw_loop_found fin all : forall cur fuel a p e rest,
-  forallb wf_ritem cur = true ->
-  (length (render_raw cur fin) < fuel)%nat ->
-  next_rreq cur = Some (e, rest) ->
-  exists al, raw_loop fuel cfg0 (rst fin all cur a p) = (SDeliver e, rst fin all rest (N.succ a) p, al).
+Lemma raw_inner_items fin items : forall fuel,
+  forallb wf_ritem items = true ->
+  (length (render_raw items fin) < fuel)%nat ->
+  match next_rreq items with
+  | Some (e, rest) => exists a, raw_inner fuel (render_raw items fin) = RIFound e (render_raw rest fin) a
+  | None => raw_inner fuel (render_raw items fin) = RIEof
+  end.
 Proof.
-  induction cur as [|[i l] r IH]; intros fuel a p e rest Hwf Hf En; [discriminate|].
-  cbn [forallb] in Hwf. apply andb_prop in Hwf. destruct Hwf as [Hi Hr].
-  destruct fuel as [|f]; [lia|].
-  unfold rst in *.
-  destruct r as [|x r'].
-  - (* last item: it must be the request, which is terminated (non-empty body) *)
-    destruct i as [t b|]; [|discriminate]. cbn [next_rreq] in En. inversion En; subst.
-    assert (Hbne : is_nil b = false).
-    { unfold wf_ritem in Hi. apply andb_prop in Hi. destruct Hi as [_ Hi].
-      repeat (apply andb_prop in Hi; destruct Hi as [Hi ?]). apply negb_true_iff. assumption. }
-    cbn [render_raw ritem_body]. rewrite Hbne. rewrite orb_true_r.
-    replace (wrap_line l (ritem_text (RReq t b)) ++ [LF] ++ b)
-      with (wrap_line l (ritem_text (RReq t b)) ++ LF :: ritem_body (RReq t b) ++ [])
-      by (cbn [ritem_body]; rewrite app_nil_r; reflexivity).
-    rewrite (raw_loop_item_lf f (RReq t b) l [] _ a p Hi). eexists. reflexivity.
-  - rewrite render_raw_cons2 in *.
-    rewrite (raw_loop_item_lf f i l _ _ a p Hi).
-    destruct i as [t b|].
-    + cbn [next_rreq] in En. inversion En; subst. eexists. reflexivity.
-    + cbn [next_rreq] in En.
-      apply (IH f a p e rest Hr); [|exact En].
-      rewrite app_length in Hf. cbn [length] in Hf. cbn [ritem_body app] in Hf. lia.
-Qed.
-
-(* nothing left in this pass: the loop reaches EOF and wraps around with enough fuel left *)
-Lemma raw_loop_wrap fin all : forall cur fuel a p,
-  forallb wf_ritem cur = true ->
-  (length (render_raw cur fin) < fuel)%nat ->
-  next_rreq cur = None -> a <> 0 ->
-  exists f', (fuel <= f' + length (render_raw cur fin) + 1)%nat /\
-    raw_loop fuel cfg0 (rst fin all cur a p) = raw_loop f' cfg0 (rst fin all all a (N.succ p)).
-Proof.
-  induction cur as [|[i l] r IH]; intros fuel a p Hwf Hf En Ha.
-  - destruct fuel as [|f]; [cbn in Hf; lia|]. exists f. split; [cbn; lia|].
-    unfold rst. cbn [render_raw raw_loop r_rest read_string negb].
-    change (passes_hit cfg0 (N.succ p)) with false. cbv iota.
-    cbn [r_ammo]. destruct (N.eqb_spec a 0); [contradiction|]. reflexivity.
+  induction items as [|[i l] r IH]; intros fuel Hwf Hf.
+  - destruct fuel; [cbn in Hf; lia|]. reflexivity.
   - cbn [forallb] in Hwf. apply andb_prop in Hwf. destruct Hwf as [Hi Hr].
-    destruct i as [t b|]; [discriminate|]. cbn [next_rreq] in En.
     destruct fuel as [|f]; [lia|].
-    unfold rst in *.
     destruct r as [|x r'].
-    + destruct fin; cbn [render_raw ritem_body is_nil negb orb] in *.
-      * (* terminated blank line, then EOF *)
-        replace (wrap_line l (ritem_text RBlank) ++ [LF] ++ [])
-          with (wrap_line l (ritem_text RBlank) ++ LF :: ritem_body RBlank ++ []) in * by reflexivity.
-        rewrite (raw_loop_item_lf f RBlank l [] _ a p Hi).
-        destruct (IH f a p Hr) as [f' [Hf' E]]; auto.
-        { rewrite app_length in Hf. cbn [length] in *. lia. }
-        exists f'. split; [|exact E].
-        rewrite app_length. cbn [length render_raw] in *. lia.
-      * (* unterminated blanks: io.EOF with data, dropped *)
-        cbn [app] in *. rewrite ?app_nil_r in *.
-        exists f. split; [lia|].
-        cbn [raw_loop r_rest].
+    + cbn [render_raw] in *.
+      destruct (fin || negb (is_nil (ritem_body i)))%bool eqn:Eterm.
+      * assert (E : wrap_line l (ritem_text i) ++ [LF] ++ ritem_body i
+                    = wrap_line l (ritem_text i) ++ LF :: ritem_body i ++ []).
+        { rewrite app_nil_r. reflexivity. }
+        rewrite E in *. cbn [raw_inner]. rewrite (raw_block_item_lf i l [] Hi).
+        assert (Hf1 : (1 <= f)%nat).
+        { rewrite app_length in Hf. cbn [length] in Hf. lia. }
+        destruct f as [|f']; [lia|].
+        destruct i; cbn [next_rreq]; [eexists; reflexivity|reflexivity].
+      * (* unterminated: only a blank line can be (a request has a non-empty body) *)
+        apply orb_false_elim in Eterm. destruct Eterm as [_ Eb].
+        apply negb_false_iff in Eb.
+        destruct i as [t b|].
+        { exfalso. unfold wf_ritem in Hi. apply andb_prop in Hi. destruct Hi as [_ Hi].
+          repeat (apply andb_prop in Hi; destruct Hi as [Hi ?]).
+          cbn [ritem_body] in Eb. rewrite Eb in *. discriminate. }
+        cbn [ritem_body app next_rreq] in *. rewrite app_nil_r in *.
+        cbn [raw_inner]. unfold raw_block.
         rewrite read_string_eof by (apply nolf_wrap_line; [eapply wf_r_lay; eauto|reflexivity]).
-        cbn [negb]. cbv iota.
-        change (passes_hit cfg0 (N.succ p)) with false. cbv iota.
-        cbn [r_ammo r_file r_pass]. destruct (N.eqb_spec a 0); [contradiction|]. reflexivity.
-    + rewrite render_raw_cons2 in *.
-      rewrite (raw_loop_item_lf f RBlank l _ _ a p Hi).
-      destruct (IH f a p Hr) as [f' [Hf' E]]; auto.
-      { rewrite app_length in Hf. cbn [length ritem_body app] in Hf. lia. }
-      exists f'. split; [|exact E].
-      rewrite app_length. cbn [length ritem_body app]. lia.
+        reflexivity.
+    + rewrite render_raw_cons2 in *. cbn [raw_inner].
+      rewrite (raw_block_item_lf i l _ Hi).
+      assert (Hlen : (length (render_raw (x :: r') fin) < f)%nat).
+      { rewrite app_length in Hf. cbn [length] in Hf. rewrite app_length in Hf. lia. }
+      destruct i; cbn [next_rreq].
+      * eexists. reflexivity.
+      * apply IH; assumption.
 Qed.
 
 Lemma next_rreq_entries items :
@@ -182,23 +149,23 @@ Lemma raw_run_cyclic fin k : forall all cur a p,
 Proof.
   induction k as [|k IH]; intros all cur a p Hall Hcur Hne Ha; [reflexivity|].
   cbn [raw_run]. unfold raw_scan. change (limit_hit cfg0 (r_ammo (rst fin all cur a p))) with false.
-  cbv iota. unfold raw_fuel. cbn [rst r_rest r_file].
-  set (fuel := (length (render_raw cur fin) + length (render_raw all fin) + 4)%nat).
+  cbv iota. cbn [raw_outer rst r_rest r_file r_ammo r_pass].
+  pose proof (raw_inner_items fin cur (S (length (render_raw cur fin))) Hcur (Nat.lt_succ_diag_r _)) as Hin.
   rewrite (next_rreq_entries cur) in *.
   destruct (next_rreq cur) as [[e rest]|] eqn:En.
-  - destruct (raw_loop_found fin all cur fuel a p e rest Hcur ltac:(unfold fuel; lia) En) as [al E].
-    fold (rst fin all cur a p). rewrite E.
+  - destruct Hin as [al Hin]. rewrite Hin.
     cbn [cycle_take map fst]. f_equal.
     apply (IH all rest (N.succ a) p); auto.
     + exact (next_rreq_wf cur e rest Hcur En).
     + intros Hz. lia.
-  - assert (Hnz : a <> 0) by (intros Hz; apply (Ha Hz); reflexivity).
-    destruct (raw_loop_wrap fin all cur fuel a p Hcur ltac:(unfold fuel; lia) En Hnz) as [f' [Hf' E]].
-    fold (rst fin all cur a p). rewrite E.
+  - rewrite Hin.
+    change (passes_hit cfg0 (N.succ p)) with false. cbv iota.
+    destruct (N.eqb_spec a 0) as [Hz|Hnz]; [exfalso; apply (Ha Hz); reflexivity|].
+    pose proof (raw_inner_items fin all (S (length (render_raw all fin))) Hall (Nat.lt_succ_diag_r _)) as Hin2.
     pose proof (next_rreq_entries all) as Eall.
     destruct (next_rreq all) as [[e rest]|] eqn:En2; [|exfalso; apply Hne; exact Eall].
-    destruct (raw_loop_found fin all all f' a (N.succ p) e rest Hall ltac:(unfold fuel in Hf'; lia) En2) as [al E2].
-    rewrite E2. rewrite Eall. cbn [cycle_take map fst]. f_equal. rewrite <- Eall.
+    destruct Hin2 as [al Hin2]. rewrite Hin2. rewrite Eall. cbn [cycle_take map fst]. f_equal.
+    rewrite <- Eall.
     apply (IH all rest (N.succ a) (N.succ p)); auto.
     + exact (next_rreq_wf all e rest Hall En2).
     + intros Hz. lia.
